@@ -30,6 +30,26 @@ def v_quasigroup5(n, cells):
     return all(t[t[t[b][a]][b]][b] == a for a in range(n) for b in range(n))
 
 
+def v_idempotent_latin(n, cells):
+    return v_latin(n, cells) and all(cells[i * n + i] == i for i in range(n))
+
+
+def count_idempotent_latin(n):
+    """Brute force: row by row, permutations with the diagonal fixed and no column clash."""
+    rows_ok = [[p for p in itertools.permutations(range(n)) if p[i] == i] for i in range(n)]
+
+    def rec(i, cols):
+        if i == n:
+            return 1
+        total = 0
+        for p in rows_ok[i]:
+            if all(p[j] not in cols[j] for j in range(n)):
+                total += rec(i + 1, [cols[j] | {p[j]} for j in range(n)])
+        return total
+
+    return rec(0, [set() for _ in range(n)])
+
+
 def v_magic_square(n, cells):
     if sorted(cells) != list(range(n * n)):
         return False
@@ -186,6 +206,14 @@ def run_case(case):
             n = params[0]
             sols = enumerate_all(Quasigroup5Problem(n, sym), cfg, procs, decision_domains=list(range(n * n)) if opt.get("decide_colors") else None)
             r.update(count=len(sols), invalid=sum(1 for s in sols if not v_quasigroup5(n, s[:n * n])), distinct=len({tuple(s[:n * n]) for s in sols}))
+        elif model == "quasigroup":
+            # the reusable base model (idempotent quasigroup, CSPLib 003), which the QG5 example specialises
+            from nucs.examples.quasigroup.quasigroup_problem import QuasigroupProblem
+            n = params[0]
+            sols = enumerate_all(QuasigroupProblem(n, sym), cfg, procs)
+            r.update(count=len(sols), invalid=sum(1 for s in sols if not v_idempotent_latin(n, s[:n * n])), distinct=len({tuple(s[:n * n]) for s in sols}))
+            if not sym:
+                r["reference_count"] = count_idempotent_latin(n)
         elif model == "magic_square":
             from nucs.examples.magic_square.magic_square_problem import MagicSquareProblem
             n = params[0]
